@@ -123,7 +123,7 @@ type Evidence struct {
 // classes whose violation shows as a panic or a hang of the real function (what the replay harness observes)
 var replayable = map[string]bool{"idx": true, "slice": true, "nil": true, "div": true, "make": true, "typeassert": true, "mapnil": true, "panic": true, "pre": true, "dec": true, "reset": true}
 
-var contractClasses = map[string]bool{"pre": false, "post": true, "inv-entry": true, "inv-pres": true, "frame": true, "assert": true, "cover": true, "typestate": true, "typestate-err": true, "init": true, "reset": true, "recover": true, "subtype": true, "lemma": true, "frame-in": true, "frame-glob": true, "frame-ro": true, "cap": true, "alloc": true, "progress": true}
+var contractClasses = map[string]bool{"pre": false, "post": true, "inv-entry": true, "inv-pres": true, "frame": true, "assert": true, "cover": true, "typestate": true, "typestate-err": true, "init": true, "reset": true, "recover": true, "subtype": true, "writers": true, "lemma": true, "frame-in": true, "frame-glob": true, "frame-ro": true, "cap": true, "alloc": true, "progress": true}
 
 func checkCmd(args []string) {
 	fs := flag.NewFlagSet("check", flag.ExitOnError)
@@ -245,6 +245,7 @@ func checkCmd(args []string) {
 	fmt.Fprintf(os.Stderr, "[%.1fs] verification conditions solved\n", time.Since(t0).Seconds())
 	lemmaObls := e.verifyLemmas(*prop)
 	lemmaObls = append(lemmaObls, e.subtypeObligations(*prop)...)
+	lemmaObls = append(lemmaObls, e.writersObligations(*prop)...)
 
 	// ---- triage --------------------------------------------------------------------------------
 	findings := loadFindings(*vdir)
